@@ -169,6 +169,8 @@ static void note_kinds(const JVal& e, const JVal& t, bool root) {
         if (em.first == tm.first) note_kinds(em.second, tm.second, false);
 }
 
+static bool live_blocks_are_schema_input_copies(std::vector<size_t> text_lens);
+static std::vector<size_t> g_schema_lens;  // text lengths of the ParseSchema calls of the current case (ledger classification)
 template <class Doc>
 static bool apply_and_judge(Doc& d, JVal& model, const JVal& tv, vf::Rng& r, const char* cfg, std::string& trace) {
   jm::RenderOpts ro;
@@ -188,6 +190,7 @@ static bool apply_and_judge(Doc& d, JVal& model, const JVal& tv, vf::Rng& r, con
   char* buf = (char*)malloc(text.size() ? text.size() : 1);
   memcpy(buf, text.data(), text.size());
   vf::note("ParseSchema");
+  g_schema_lens.push_back(text.size());
   d.ParseSchema(buf, text.size());
   free(buf);
   std::string ctx = std::string(cfg) + ": existing=" + jm::describe(model, 250) + " text=" + vf::printable(text, 250);
@@ -230,6 +233,7 @@ template <class Doc>
 static void one_case(vf::Rng& r, const char* cfg, bool ledger) {
   std::string trace;
   size_t applications = 0;
+  g_schema_lens.clear();
   {
     // existing document: any kind at the root, objects preferred
     int rk = r.below(3) ? qObj : (int)r.below(qNumKinds);
@@ -287,7 +291,9 @@ static void one_case(vf::Rng& r, const char* cfg, bool ledger) {
     if (live) {
       // the input buffer of every ParseSchema call but the last stays allocated (strings of newly created values
       // point into it): that chain is a recorded finding; anything beyond it is a leak of nodes
-      if (applications >= 2 && live <= applications - 1)
+      std::vector<size_t> earlier = g_schema_lens;
+      if (!earlier.empty()) earlier.pop_back();  // the last call's copy is released with the document
+      if (applications >= 2 && live <= applications - 1 && live_blocks_are_schema_input_copies(earlier))
         vf::violation("ledger-leak:previous-schema-input-buffers-after-repeated-ParseSchema", std::to_string(live) + " blocks after " + std::to_string(applications) + " ParseSchema calls");
       else
         vf::violation("ledger-leak", std::to_string(live) + " blocks still allocated after the document was destroyed (" + std::to_string(applications) +
@@ -295,6 +301,118 @@ static void one_case(vf::Rng& r, const char* cfg, bool ledger) {
     }
     su::ledger_reset();
   }
+}
+
+// live ledger blocks that are explained by the recorded finding (every ParseSchema call but the last leaves its len+64
+// byte copy of the input allocated): each live block must match the size of one earlier call's copy
+static bool live_blocks_are_schema_input_copies(std::vector<size_t> text_lens) {
+  std::vector<size_t> live;
+  {
+    std::lock_guard<std::mutex> g(su::ledger().mu);
+    for (auto& kv : su::ledger().live) live.push_back(kv.second.first);
+  }
+  for (size_t sz : live) {
+    auto it = std::find_if(text_lens.begin(), text_lens.end(), [&](size_t l) { return l + 64 == sz; });
+    if (it == text_lens.end()) return false;
+    text_lens.erase(it);
+  }
+  return true;
+}
+
+// C13: ParseSchema on INVALID text (truncated / mutated), on documents of every allocator kind: whatever was built or
+// replaced before the fault has to be torn down exactly once; the document is then inspected, reused and destroyed
+static vf::Counter c_inv("ParseSchema-on-invalid-text"), c_inv_rej("invalid-text:rejected"), c_inv_acc("invalid-text:accepted(mutation kept it valid or lenient)"),
+    c_inv_reuse("invalid-text:document-reused-afterwards");
+template <class Doc>
+static void invalid_text_case(vf::Rng& r, const char* cfg, bool ledger) {
+  std::string trace;
+  size_t applications = 0;
+  std::vector<size_t> schema_lens;
+  {
+    JVal e = gen_of_kind(r.below(4) ? qObj : (int)r.below(qNumKinds), r, 0);
+    std::string etext = jm::render_compact(e);
+    trace = etext;
+    Doc d;
+    d.Parse(etext.data(), etext.size());
+    if (d.HasParseError()) return;
+    JVal model = e;
+    size_t reps = r.range(1, 3);
+    for (size_t k = 0; k < reps; k++) {
+      bool und = false;
+      JVal tv = derive_text(model, r, 0, und);
+      jm::RenderOpts ro;
+      ro.ws_percent = (unsigned)r.pick(std::vector<unsigned>{0, 10});
+      std::string text = jm::render(tv, r, ro);
+      switch (r.below(4)) {
+        case 0: text.resize(r.below(text.size() + 1)); break;                                   // truncated anywhere
+        case 1: text = jm::mutate(text, r); break;
+        case 2: text = jm::mutate(jm::mutate(text, r), r); break;
+        default: if (!text.empty()) text[r.below(text.size())] = (char)r.pick(std::vector<int>{'"', '\\', '{', '}', '[', ']', ',', ':', 0, 'x'}); break;
+      }
+      trace += " <- " + vf::printable(text, 200);
+      vf::witness(trace);
+      c_inv.add();
+      vf::eval();
+      applications++;
+      schema_lens.push_back(text.size());
+      char* buf = (char*)malloc(text.size() ? text.size() : 1);
+      memcpy(buf, text.data(), text.size());
+      vf::note("ParseSchema(invalid text)");
+      d.ParseSchema(buf, text.size());
+      free(buf);
+      if (d.HasParseError()) c_inv_rej.add(); else c_inv_acc.add();
+      // inspect whatever the document now holds (memory effects are what is observed; the content after a failed
+      // ParseSchema is not specified)
+      vf::note("inspect-after-ParseSchema(invalid text)");
+      JVal got;
+      std::string why;
+      (void)su::read_node(d, got, why);
+      if (r.coin()) {
+        WriteBuffer wb;
+        (void)d.Serialize(wb);
+      }
+      // reuse: a valid ParseSchema, a fresh Parse, or nothing
+      switch (r.below(4)) {
+        case 0: {
+          c_inv_reuse.add();
+          std::string t2 = "{\"after\":[1,{\"x\":\"" + std::string(r.below(40), 'y') + "\"}]}";
+          vf::note("ParseSchema(valid) after a failed one");
+          d.ParseSchema(t2.data(), t2.size());
+          applications++;
+          schema_lens.push_back(t2.size());
+          break;
+        }
+        case 1: {
+          c_inv_reuse.add();
+          vf::note("Parse after a failed ParseSchema");
+          d.Parse(etext.data(), etext.size());
+          break;
+        }
+        default: break;
+      }
+      if (!su::read_node(d, got, why)) break;
+      model = got;
+      if (model.k != JVal::Obj) break;
+    }
+    vf::distinct(vf::hash_str(trace));
+  }
+  if (ledger) {
+    c_ledger.add();
+    if (su::ledger_errors()) vf::violation("ledger-bad-free:after-invalid-schema-text", su::ledger().last_error + " history: " + vf::printable(trace, 400));
+    size_t live = su::ledger_live();
+    if (live) {
+      // the recorded finding (input copies of earlier ParseSchema calls stay allocated) also applies here; anything
+      // beyond one block per earlier call is a leak of nodes or strings
+      if (!schema_lens.empty()) schema_lens.pop_back();  // the last call's copy is released with the document
+      if (live_blocks_are_schema_input_copies(schema_lens))
+        vf::violation("ledger-leak:previous-schema-input-buffers-after-repeated-ParseSchema", std::to_string(live) + " blocks after " + std::to_string(applications) + " ParseSchema calls incl. invalid text");
+      else
+        vf::violation("ledger-leak:after-invalid-schema-text", std::to_string(live) + " blocks still allocated that are not input copies of earlier calls; history: " + vf::printable(trace, 400));
+    }
+    su::ledger_reset();
+  }
+  (void)cfg;
+  (void)applications;
 }
 
 // systematic kind x kind matrix at the root and at one declared key
@@ -343,6 +461,10 @@ int main(int argc, char** argv) {
                }});
   S.push_back({"generated_pairs_pool", 100000, 3000000, [](uint64_t, vf::Rng& r) { c_pool.add(); one_case<su::PoolDoc>(r, "pool", false); }});
   S.push_back({"generated_pairs_ledger", 100000, 3000000, [](uint64_t, vf::Rng& r) { c_track.add(); su::ledger_reset(); one_case<su::TrackDoc>(r, "ledger", true); }});
+  if (g_prop == "C13") {
+    S.push_back({"invalid_text_pool", 20000, 1000000, [](uint64_t, vf::Rng& r) { c_pool.add(); invalid_text_case<su::PoolDoc>(r, "pool", false); }});
+    S.push_back({"invalid_text_ledger", 30000, 1500000, [](uint64_t, vf::Rng& r) { c_track.add(); su::ledger_reset(); invalid_text_case<su::TrackDoc>(r, "ledger", true); }});
+  }
   return vf::run(argc, argv, S);
 }
 #endif  // VF_FUZZ_TARGET
